@@ -14,7 +14,7 @@ TITLE = "Agents are simulated independently of each other"
 BUDGET = {"quick": 120, "thorough": 1500}
 RULE = (
     "Cases = (supported model - deterministic with weight 3/4, else with stochastic transitions for the period-0 "
-    "clause -, batch of 3-9 agents incl. deliberate duplicates (1 case in 8: a large batch of 130-300 agents), a permutation, a subset, a duplication (agent j "
+    "clause -, batch of 3-9 agents incl. deliberate duplicates (1 case in 8: a large batch of 130-300 agents; 1 case in 8: a cohort whose agents share the discrete states and differ in the continuous states only by a relative 1e-6..1e-8), a permutation, a subset, a duplication (agent j "
     "repeated k times), a reordering of the keys of initial_states, seed). Five simulations of the real code: "
     "A=batch, B=permuted batch, C=subset, D=with duplicates, E=reordered keys. Rows of the same agent must agree "
     "across runs (discrete exact, floats 1e-12); a differing choice is accepted only if the C02 oracle finds both "
@@ -46,8 +46,10 @@ def cases(draw):
         # large batch (130-300 agents): index arithmetic that only breaks beyond 255 rows etc.
         agents = expand_agents(agents, draw(st.integers(130, 300)))
         n = len(agents)
+    near = (not big) and draw(st.integers(0, 7)) == 0
     return {
         "spec": spec.to_json(),
+        "near_identical": near,
         "agents": agents,
         "seed": draw(st.integers(0, 2**31 - 1)),
         "perm": draw(st.permutations(list(range(n)))) if not big else list(range(n))[::-1],
@@ -73,6 +75,18 @@ def check(case):
     if not all(np.isfinite(ref.to_lcm_layout(v, t)).all() for t, v in enumerate(ref.V)):
         return Outcome(status="skip", reason="nonfinite_reference", digest=dg)
     init = materialise_agents(spec, ref, case["agents"])
+    if case.get("near_identical"):
+        # a cohort: every agent shares agent 0's discrete states and has continuous states that
+        # differ from agent 0's only by a relative 1e-6 .. 1e-8 (not equal)
+        n_ag = len(case["agents"])
+        deltas = np.array([0.0, 1e-6, -1e-6, 3e-7, -2e-8, 5e-7, -4e-7, 1e-8, -7e-7])[:n_ag]
+        for s_, g in spec.states.items():
+            if g[0] == "disc":
+                init[s_] = np.full(n_ag, init[s_][0])
+            else:
+                x0 = float(init[s_][0])
+                base = x0 if x0 != 0 else 1.0
+                init[s_] = np.asarray(x0 + base * deltas, dtype=float)
     N, T = len(case["agents"]), spec.n_periods
     stochastic = bool(spec.stochastic_states())
     fns = simcheck.get_functions(spec, targets=("solve", "simulate"))
@@ -96,6 +110,8 @@ def check(case):
     reordered = {keys[j]: init[keys[j]] for j in case["key_perm"]}
     frames["key_order"] = (sim(reordered), list(range(N)))
     classes = model_classes(spec, ref) + (["stochastic_model"] if stochastic else ["deterministic_model"])
+    if case.get("near_identical"):
+        classes.append("near_identical_cohort")
     cnt = {"row_comparisons": 0, "ties": 0}
     msgs = []
     cols = ["value", *spec.choices] if stochastic else list(dfA.columns)
